@@ -35,7 +35,22 @@ func TestC06(t *testing.T) {
 		default:
 			copy(msgKey[:], drawBytes(t, "msgKey", 16))
 		}
-		n := rapid.OneOf(rapid.IntRange(0, 200), rapid.SampledFrom([]int{0, 16, 32, 48, 55, 56, 63, 64, 65, 119, 120, 4096})).Draw(t, "plainLen")
+		// MessageKey takes any plaintext (messages go up to 16 MiB; padded
+		// lengths are multiples of 16 but the function does not require it).
+		// Lengths: small, uniform to 5000, and within 40 of a power of two up
+		// to 2^17 (buffer-size boundaries of any block-wise implementation).
+		n := rapid.OneOf(
+			rapid.IntRange(0, 200),
+			rapid.IntRange(0, 5000),
+			rapid.SampledFrom([]int{0, 16, 32, 48, 55, 56, 63, 64, 65, 119, 120, 4096}),
+			rapid.Custom(func(t *rapid.T) int {
+				v := 1<<rapid.IntRange(5, 17).Draw(t, "pow") + rapid.IntRange(-40, 40).Draw(t, "delta")
+				if v < 0 {
+					v = 0
+				}
+				return v
+			}),
+		).Draw(t, "plainLen")
 		plain := drawBytes(t, "plain", n)
 		rk := [256]byte(ak.Value)
 
@@ -75,6 +90,30 @@ func TestC06(t *testing.T) {
 		}
 		h := fmt.Sprintf("%x/%x/%d/%x", ak.ID, msgKey[:], n, trunc24(plain))
 		st.Case(h, true, fmt.Sprintf("keyid=%x msgkey=%s plain=%d", ak.ID, hexShort(msgKey[:]), n), keyClass, mkClass, fmt.Sprintf("plain%%64=%d", n%64/16*16))
+	})
+}
+
+// TestC06Lengths: msg_key for every plaintext length 0..4224 in one case (one
+// drawn key and content): a deviation confined to a few lengths cannot hide.
+func TestC06Lengths(t *testing.T) {
+	st := pbt.NewStats("TestC06Lengths")
+	defer st.Flush()
+	rapid.Check(t, func(t *rapid.T) {
+		ak, keyClass := genAuthKey(t, "key")
+		rk := [256]byte(ak.Value)
+		seed := rapid.Uint64().Draw(t, "contentSeed")
+		buf := pbt.NewStream(seed).Bytes(4224)
+		for n := 0; n <= len(buf); n++ {
+			for _, side := range []crypto.Side{crypto.Client, crypto.Server} {
+				if got, want := crypto.MessageKey(ak.Value, buf[:n], side), ref.MsgKeyV2(rk, buf[:n], side == crypto.Server); [16]byte(got) != want {
+					t.Fatalf("MessageKey side=%d len=%d: got %x want %x", side, n, got[:], want[:])
+				}
+			}
+			if got, want := crypto.MessageKeyV1(buf[:n]), ref.MsgKeyV1(buf[:n]); [16]byte(got) != want {
+				t.Fatalf("MessageKeyV1 len=%d: got %x want %x", n, got[:], want[:])
+			}
+		}
+		st.Case(fmt.Sprintf("%x/%d", ak.ID, seed), true, fmt.Sprintf("keyid=%x content seed %d, lengths 0..4224", ak.ID, seed), keyClass)
 	})
 }
 
